@@ -279,7 +279,11 @@ def handle (st? : Option State) (op : String) (a : Proto.Args) : Option State ×
     (some st, match peekUsed st with | none => "none" | some t => s!"some {t}")
   | "complete_read", some st =>
     let (st', o) := completeRead st (tokArg a)
-    (some st', s!"res={resStr o.res} buf={bufStr o (a.nat "len")}")
+    -- `ip=1`: the platform shares in place; before the completion is consumed the buffer's contents
+    -- are unspecified (the device may already have written into it)
+    let r := resStr o.res
+    let b := if a.bool "ip" && (r == "WrongToken" || r == "NotReady") then "-" else bufStr o (a.nat "len")
+    (some st', s!"res={r} buf={b}")
   | "complete_write", some st =>
     let (st', o) := completeWrite st (tokArg a)
     (some st', s!"res={resStr o.res}")
